@@ -6,27 +6,30 @@ open Node
     expression that reads the same place back and erases to `eo` (under the bindings `tk` made) -/
 def PairEr (cx : Cx) (lo hi : Nat) (e eo tk ok : Node) (s s1 : St) : Prop :=
   s.counter ≤ s1.counter ∧
-  ∀ σ, cx.ext σ → ∃ T Δt, erase σ tk = (T, Δt ++ σ) ∧ Sim T e ∧ WinU lo hi s.counter s1.counter Δt ∧
-    ∀ Δ2, Avoid s.counter s1.counter Δ2 → AvoidP cx.bad Δ2 →
-      ∃ O Δo, erase (Δ2 ++ (Δt ++ σ)) ok = (O, Δo ++ (Δ2 ++ (Δt ++ σ))) ∧ Sim O eo ∧ Win lo hi Δo
+  ∀ tk'', BRg tk tk'' → ∀ σ, cx.ext σ → ∃ T Δt, erase σ tk'' = (T, Δt ++ σ) ∧ Sim T e ∧ WinU lo hi s.counter s1.counter Δt ∧
+    ∀ ok'', BRg ok ok'' → ∀ Δ2, Avoid s.counter s1.counter Δ2 → AvoidP cx.bad Δ2 →
+      ∃ O Δo, erase (Δ2 ++ (Δt ++ σ)) ok'' = (O, Δo ++ (Δ2 ++ (Δt ++ σ))) ∧ Sim O eo ∧ Win lo hi Δo
 
 theorem pairEr_same {cx : Cx} {lo hi : Nat} {e' e : Node} (s : St) (hw : HypW cx hi s) (hE : Er cx lo hi e' e) :
     PairEr cx lo hi e e e' e' s s := by
   refine ⟨Nat.le_refl _, ?_⟩
-  intro σ hσ
-  obtain ⟨X, Δ, eX, sX, wX⟩ := hE σ hσ
+  intro tk'' htk σ hσ
+  obtain ⟨X, Δ, eX, sX, wX⟩ := hE tk'' htk σ hσ
   refine ⟨X, Δ, eX, sX, wX.winU, ?_⟩
-  intro Δ2 _ hac
-  exact hE _ (Cx.ext_append (Cx.ext_append hσ (wX.avoidP hw.h1)) hac)
+  intro ok'' hok Δ2 _ hac
+  exact hE ok'' hok _ (Cx.ext_append (Cx.ext_append hσ (wX.avoidP hw.h1)) hac)
 
 theorem seqOperand_Er {cx : Cx} {lo hi : Nat} {x' x : Node} (h : Er cx lo hi x' x) : Er cx lo hi (seqOperand x') x := by
   unfold seqOperand
   split
   · rename_i es sp
-    intro σ hσ
-    obtain ⟨X, Δ, eX, sX, wX⟩ := h σ hσ
+    intro e'' hb σ hσ
+    obtain ⟨i'', rfl, hi⟩ := hb.paren_inv
+    obtain ⟨X, Δ, eX, sX, wX⟩ := h i'' hi σ hσ
     refine ⟨X, Δ, ?_, sX, wX⟩
-    simp only [erase, Node.span, span_beq_refl', if_true] at eX ⊢
+    have hsp : (i''.span == (Node.seq es sp).span) = true := by
+      rw [BRg.span _ _ hi]; exact span_beq_refl' _
+    simp only [erase, hsp, if_true]
     exact eX
   · exact h
 
@@ -50,12 +53,14 @@ theorem hoistTargetPart_Er (cx : Cx) (lo hi : Nat) (e' e : Node) (sp : Span) (s 
   · rw [h]
     simp only [List.nil_append, List.getLast?_singleton, run_pure]
     refine ⟨by omega, ?_⟩
-    intro σ hσ
-    obtain ⟨X, Δe, eX, sX, wX⟩ := hE' σ hσ
-    have hasg : erase σ (.assign "=" (tempIdent s.counter) (assignRight (seqOperand e') .expr) sp)
+    intro tk'' htk σ hσ
+    obtain ⟨a'', rfl, ha⟩ := htk.paren_inv
+    obtain ⟨e'', rfl, he⟩ := tempAssign_BRg_inv ha
+    obtain ⟨X, Δe, eX, sX, wX⟩ := hE' e'' he σ hσ
+    have hasg : erase σ (.assign "=" (tempIdent s.counter) (assignRight e'' .expr) sp)
         = (X, (s.counter, X) :: (Δe ++ σ)) := by
       rw [erase_tempAssign]
-      obtain ⟨a, b⟩ := erase_assignRight σ (Δe ++ σ) (seqOperand e') X .expr eX sX.2.2
+      obtain ⟨a, b⟩ := erase_assignRight σ (Δe ++ σ) e'' X .expr eX sX.2.2
       rw [a, b]
     refine ⟨X, (s.counter, X) :: Δe, ?_, sX, ?_, ?_⟩
     · rw [erase_paren_tight _ _ _ (by simp [Node.span, span_beq_refl']), hasg]; rfl
@@ -63,7 +68,8 @@ theorem hoistTargetPart_Er (cx : Cx) (lo hi : Nat) (e' e : Node) (sp : Span) (s 
       rcases List.mem_cons.mp hp with hp | hp
       · subst hp; right; dsimp only; omega
       · exact Or.inl (wX p hp)
-    · intro Δ2 hav _
+    · intro ok'' hok Δ2 hav _
+      rw [BRg_noBlk (noBlk_tempIdent _) hok]
       refine ⟨X, [], ?_, sX, Win.nil _ _⟩
       simp only [tempIdent, erase_temp, List.nil_append]
       rw [Env.get_append_of_notin _ _ _ (by intro p hp; have := hav p hp; omega)]
@@ -77,6 +83,7 @@ theorem noSp_other (k : String) (sp : Span) (ns : List String) (vs : List Node) 
 theorem pairEr_two {cx : Cx} {lo hi : Nat} (W : Node → Node → Node)
     (hW : ∀ σ a b, erase σ (W a b) = (W (erase σ a).1 (erase (erase σ a).2 b).1, (erase (erase σ a).2 b).2))
     (hS : ∀ A B a b, Sim A a → Sim B b → Sim (W A B) (W a b))
+    (hWi : ∀ a b m, BRg (W a b) m → ∃ a'' b'', m = W a'' b'' ∧ BRg a a'' ∧ BRg b b'')
     {a ao b bo ta oa tb ob : Node} {s s1 s2 : St} (hw : HypW cx hi s)
     (h1 : PairEr cx lo hi a ao ta oa s s1) (h2 : PairEr cx lo hi b bo tb ob s1 s2) :
     PairEr cx lo hi (W a b) (W ao bo) (W ta tb) (W oa ob) s s2 := by
@@ -84,28 +91,30 @@ theorem pairEr_two {cx : Cx} {lo hi : Nat} (W : Node → Node → Node)
   obtain ⟨c2, P2⟩ := h2
   have hw1 : HypW cx hi s1 := hw.mono c1
   refine ⟨by omega, ?_⟩
-  intro σ hσ
-  obtain ⟨Ta, Δa, eTa, sTa, wa, Ra⟩ := P1 σ hσ
+  intro tk'' htk σ hσ
+  obtain ⟨ta'', tb'', rfl, hta, htb⟩ := hWi _ _ _ htk
+  obtain ⟨Ta, Δa, eTa, sTa, wa, Ra⟩ := P1 ta'' hta σ hσ
   have hσ1 : cx.ext (Δa ++ σ) := Cx.ext_append hσ (wa.avoidCx hw)
-  obtain ⟨Tb, Δb, eTb, sTb, wb, Rb⟩ := P2 _ hσ1
+  obtain ⟨Tb, Δb, eTb, sTb, wb, Rb⟩ := P2 tb'' htb _ hσ1
   refine ⟨W Ta Tb, Δb ++ Δa, ?_, hS _ _ _ _ sTa sTb, ?_, ?_⟩
   · rw [hW, eTa]; simp only; rw [eTb]; simp [List.append_assoc]
   · exact (wb.mono c1 (Nat.le_refl _)).append (wa.mono (Nat.le_refl _) c2)
-  · intro Δ2 hav hac
+  · intro ok'' hok Δ2 hav hac
+    obtain ⟨oa'', ob'', rfl, hoa, hob⟩ := hWi _ _ _ hok
     have hA : Avoid s.counter s1.counter (Δ2 ++ Δb) := by
       intro p hp
       rcases List.mem_append.mp hp with hp | hp
       · have := hav p hp; omega
       · have := wb p hp; have := hw.h3; omega
     have hC : AvoidP cx.bad (Δ2 ++ Δb) := hac.append (wb.avoidCx hw1)
-    obtain ⟨Oa, Δoa, eOa, sOa, woa⟩ := Ra (Δ2 ++ Δb) hA hC
+    obtain ⟨Oa, Δoa, eOa, sOa, woa⟩ := Ra oa'' hoa (Δ2 ++ Δb) hA hC
     have hA2 : Avoid s1.counter s2.counter (Δoa ++ Δ2) := by
       intro p hp
       rcases List.mem_append.mp hp with hp | hp
       · have := woa p hp; have := hw.h3; omega
       · have := hav p hp; omega
     have hC2 : AvoidP cx.bad (Δoa ++ Δ2) := (woa.avoidP hw.h1).append hac
-    obtain ⟨Ob, Δob, eOb, sOb, wob⟩ := Rb (Δoa ++ Δ2) hA2 hC2
+    obtain ⟨Ob, Δob, eOb, sOb, wob⟩ := Rb ob'' hob (Δoa ++ Δ2) hA2 hC2
     refine ⟨W Oa Ob, Δob ++ Δoa, ?_, hS _ _ _ _ sOa sOb, wob.append woa⟩
     have e1 : Δ2 ++ (Δb ++ Δa ++ σ) = Δ2 ++ Δb ++ (Δa ++ σ) := by simp [List.append_assoc]
     rw [hW, e1, eOa]
@@ -113,6 +122,17 @@ theorem pairEr_two {cx : Cx} {lo hi : Nat} (W : Node → Node → Node)
     have e2 : Δoa ++ (Δ2 ++ Δb ++ (Δa ++ σ)) = Δoa ++ Δ2 ++ (Δb ++ (Δa ++ σ)) := by simp [List.append_assoc]
     rw [e2, eOb]
     simp [List.append_assoc]
+
+theorem hWi_member (msp : Span) : ∀ a b m, BRg (Node.member a b msp) m → ∃ a'' b'', m = Node.member a'' b'' msp ∧ BRg a a'' ∧ BRg b b'' := by
+  intro a b m h; exact h.member_inv
+
+theorem hWi_other2 (k : String) (sp : Span) (ns : List String) : ∀ a b m, BRg (Node.other k sp ns [a, b]) m →
+    ∃ a'' b'', m = Node.other k sp ns [a'', b''] ∧ BRg a a'' ∧ BRg b b'' := by
+  intro a b m h
+  obtain ⟨vs', rfl, hv⟩ := h.other_inv
+  obtain ⟨a'', t, rfl, ha, ht⟩ := BRgL.cons_inv hv
+  obtain ⟨b'', rfl, hb⟩ := BRgL.single_inv ht
+  exact ⟨a'', b'', rfl, ha, hb⟩
 
 theorem hW_member (msp : Span) : ∀ σ a b, erase σ (Node.member a b msp) =
     (Node.member (erase σ a).1 (erase (erase σ a).2 b).1 msp, (erase (erase σ a).2 b).2) := by
@@ -137,12 +157,16 @@ theorem pairEr_other1 {cx : Cx} {lo hi : Nat} (k : String) (sp : Span) (ns : Lis
     PairEr cx lo hi (.other k sp ns [a]) (.other k sp ns [ao]) (.other k sp ns [ta]) (.other k sp ns [oa]) s s1 := by
   obtain ⟨c1, P1⟩ := h
   refine ⟨c1, ?_⟩
-  intro σ hσ
-  obtain ⟨Ta, Δa, eTa, sTa, wa, Ra⟩ := P1 σ hσ
+  intro tk'' htk σ hσ
+  obtain ⟨vs', rfl, hv⟩ := htk.other_inv
+  obtain ⟨ta'', rfl, hta⟩ := BRgL.single_inv hv
+  obtain ⟨Ta, Δa, eTa, sTa, wa, Ra⟩ := P1 ta'' hta σ hσ
   refine ⟨.other k sp ns [Ta], Δa, by simp only [erase, eraseL, eTa], ?_, wa, ?_⟩
   · exact ⟨by simp only [strip, stripL, sTa.1], Or.inl rfl, noSp_other _ _ _ _⟩
-  · intro Δ2 hav hac
-    obtain ⟨Oa, Δoa, eOa, sOa, woa⟩ := Ra Δ2 hav hac
+  · intro ok'' hok Δ2 hav hac
+    obtain ⟨vs2, rfl, hv2⟩ := hok.other_inv
+    obtain ⟨oa'', rfl, hoa⟩ := BRgL.single_inv hv2
+    obtain ⟨Oa, Δoa, eOa, sOa, woa⟩ := Ra oa'' hoa Δ2 hav hac
     refine ⟨.other k sp ns [Oa], Δoa, by simp only [erase, eraseL, eOa], ?_, woa⟩
     exact ⟨by simp only [strip, stripL, sOa.1], Or.inl rfl, noSp_other _ _ _ _⟩
 
